@@ -140,9 +140,9 @@ func parseArgsWithExpiration(args map[string]any, defaultHandler func(name strin
 	for name, arg := range args {
 		switch name {
 		case "expiration.seconds", "seconds":
-			expiration = now.Add(time.Second*time.Duration(arg.(int64)) - time.Nanosecond)
+			expiration = deadlineAfter(now, arg.(int64), time.Second).Add(-time.Nanosecond)
 		case "expiration.milliseconds", "milliseconds":
-			expiration = now.Add(time.Millisecond*time.Duration(arg.(int64)) - time.Nanosecond)
+			expiration = deadlineAfter(now, arg.(int64), time.Millisecond).Add(-time.Nanosecond)
 		case "expiration.unix-time-seconds":
 			expiration = time.Unix(arg.(int64), 0)
 		case "expiration.unix-time-milliseconds":
